@@ -80,7 +80,7 @@ def lattice_spec(anchor, dh, cells, order, nmag, maggrid, flags, style='min'):
         ordered = sorted(cells, key=lambda cr: (cr[1], cr[0]))
     else:
         ordered = sorted(cells, key=lambda cr: (cr[0], cr[1]))[::-1]
-    m_start, m_step = (D('4.95'), D('0.1')) if maggrid == 'a' else (D('5.0'), D('0.5'))
+    m_start, m_step = (D('4.95'), D('0.1')) if maggrid == 'a' else (D('5.0'), D('0.5')) if maggrid == 'b' else (D('4.125'), D('0.25'))
     rows = []
     i = 0
     for ci, (c, r) in enumerate(ordered):
@@ -119,7 +119,7 @@ def variants(tier='quick'):
                 out.append((list(sub), order, 2, 'a', None, False, 'min', f'subset{len(sub)}-{order}'))
     cells32 = [(c, r) for c in range(3) for r in range(2)]
     for nmag in (1, 2, 3):
-        for mg in ('a', 'b'):
+        for mg in ('a', 'b', 'c'):
             for flags in (None, [1, 1, 0, 1, 1, 1]):
                 for swap in (False, True):
                     out.append((cells32, 'lat-fast', nmag, mg, flags, swap, 'min', f'3x2-M{nmag}{mg}-{"flag" if flags else "noflag"}-{"swap" if swap else "noswap"}'))
@@ -475,6 +475,13 @@ def run_scale(case, failures, hsh):
                                      f'history {list(hist)} then {op}: target_event_rates {numpy.asarray(ter).tolist()} (n_fore {float(nf)!r}), get_rates {g_.tolist()}, current data at those bins {want_t.tolist()} (sum {float(cur.sum())!r})', rep))
         except Exception as e:
             failures.append(Fail(f'GriddedForecast.target_event_rates|{type(e).__name__}|scaled', f'{type(e).__name__}: {e}', rep))
+        try:
+            sc_c = numpy.asarray(obj.spatial_counts(cartesian=True), dtype=float)
+            if abs(float(numpy.nansum(sc_c)) - float(numpy.sum(obs))) > 1e-12 * float(numpy.sum(obs)):
+                failures.append(Fail('GriddedForecast.spatial_counts[cartesian=True]|does-not-sum-to-total|scaled',
+                                     f'history {list(hist)} then {op}: bounding-box form sums to {float(numpy.nansum(sc_c))!r}, the data to {float(numpy.sum(obs))!r}', rep))
+        except Exception as e:
+            failures.append(Fail(f'GriddedForecast.spatial_counts[cartesian=True]|{type(e).__name__}|scaled', f'{type(e).__name__}: {e}', rep))
         t = float(obj.sum())
         if abs(float(numpy.sum(obj.spatial_counts())) - t) > 1e-12 * t or abs(float(numpy.sum(obj.magnitude_counts())) - t) > 1e-12 * t:
             failures.append(Fail('GriddedForecast|marginals-do-not-sum-to-total|scaled', f'history {list(hist)} {op}', rep))
